@@ -98,7 +98,12 @@ BoundaryPolys(k, l) ==
                                     n \in {pp.nv - 2, pp.nv + 2} \cap Nat}
               ELSE {}
       zero == {[l |-> l, cls |-> "zero", deg |-> MinOf(DegChoices(k)), lz |-> 0, bound |-> NONE, hid |-> NONE]}
-  IN base \cup nvs \cup zero
+      \* X^lz * q: the size checks must look at the degree, not at the number of non-zero coefficients
+      lowz == IF Fam = "uni"
+              THEN {[l |-> l, cls |-> "lowz", deg |-> d, lz |-> z, bound |-> b, hid |-> NONE] :
+                      d \in {x \in degs : x >= 2}, z \in {1, 2}, b \in {x \in bnds : x >= -1}}
+              ELSE {}
+  IN base \cup nvs \cup zero \cup lowz
 
 \* a small pool for the second and later polynomials (keeps the product finite and relevant)
 ExtraPolys(k, l) ==
@@ -127,6 +132,7 @@ PolyLists(k, r) ==
 \* --------------------------------------------------------------------------
 \* operations
 L == 1..MaxPolys
+SpecialPts == {5, 6, 7}
 QsShape(i) ==
   CASE i = 1 -> {<<l, 1, 1>> : l \in L}                                         \* one group
     [] i = 2 -> {<<l, 1, 1>> : l \in L} \cup {<<1, 2, 2>>}                        \* one polynomial at two points
@@ -134,6 +140,8 @@ QsShape(i) ==
     [] i = 4 -> {<<1, 1, 1>>} \cup {<<l, 2, 2>> : l \in L \ {1}}                  \* disjoint groups
     [] i = 5 -> {<<l, 1, 1>> : l \in L} \cup {<<l, 2, 2>> : l \in L} \cup {<<1, 3, 1>>}
     [] i = 6 -> {<<l, 1, 1>> : l \in L} \cup {<<l, 2, 2>> : l \in L}              \* k = 2 labels, all polynomials
+    [] i = 7 -> {<<l, 1, 5>> : l \in L} \cup {<<1, 2, 6>>}                        \* the special points -1 and 0
+    [] i = 8 -> {<<l, 1, 7>> : l \in L} \cup {<<l, 2, 5>> : l \in L}              \* the special points 1 and -1
 
 LastL == MaxPolys
 LcShape(i) ==
@@ -155,6 +163,9 @@ OpSpace ==
    THEN {[kind |-> "open", labels |-> SortInts(L), pt |-> 1, qs |-> {}, lcs |-> <<>>]}
         \cup (IF MaxPolys >= 2 /\ Mode = "C01"
               THEN {[kind |-> "open", labels |-> <<2, 1>>, pt |-> 2, qs |-> {}, lcs |-> <<>>]} ELSE {})
+        \* the algebraically special points -1 (id 5), 0 (id 6), 1 (id 7)
+        \cup (IF Mode \in {"C01", "C02", "C03", "C04"}
+              THEN {[kind |-> "open", labels |-> SortInts(L), pt |-> z, qs |-> {}, lcs |-> <<>>] : z \in SpecialPts} ELSE {})
    ELSE {})
   \cup (IF "batch" \in OpKinds
         THEN {[kind |-> "batch", labels |-> <<>>, pt |-> 0, qs |-> QsShape(i), lcs |-> <<>>] : i \in QsShapes}
